@@ -139,6 +139,16 @@ theorem inserted_code_belongs_to_the_function {i : Nat} {ir ir' : IR} {b off rep
       alookup tbk.id ir'.fbb = some f ∨ ∃ x, ir'.block? tbk.id = some x ∧ x.bi = none :=
   insert_code_joins_function h hb hbi hcode hf hI hnew hlt hnd
 
+/-- **deleting an entry block promotes the next block only if it is in the same function**: after
+the function-table step of `remove_block` every entry was an entry before - except the next block,
+and that one only when the removed block was an entry of the function, the next block is code and
+the cache puts both into that same function -/
+theorem entry_promotion_only_within_the_function (x : IR) (blk : Block) (n : Option Nat) (nc : Bool) (c g : Nat)
+    (h : (x.removeFunctions blk n nc).isEntry c g) :
+    x.isEntry c g ∨ (c = n.getD 0 ∧ nc = true ∧ x.isEntry blk.id g ∧ alookup blk.id x.fbb = some g ∧
+      x.sameFunction blk.id (n.getD 0) = true) :=
+  removeFunctions_isEntry x blk n nc c g h
+
 /-! ### non-vacuity -/
 private def demo : IR := { fbb := [(1, 7), (2, 7)], aux := { funcBlocks := [(7, [1, 2])], funcEntries := [(7, [1])], funcNames := [(7, 99)] } }
 example : Mirror demo := by
